@@ -41,36 +41,36 @@ func main() {
 }
 
 type runResult struct {
-	Harness       string                   `json:"harness"`
-	Package       string                   `json:"package"`
-	Status        string                   `json:"status"` // ok, violation, inconclusive, incomplete
-	Paths         int                      `json:"paths"`
-	PathsEnded    map[string]int           `json:"paths_ended"`
-	Steps         int64                    `json:"ssa_instructions_interpreted"`
-	Decisions     int64                    `json:"decisions"`
-	SolverQueries int                      `json:"solver_queries"`
-	SolverSat     int                      `json:"solver_sat"`
-	SolverUnsat   int                      `json:"solver_unsat"`
-	SolverUnknown int                      `json:"solver_unknown"`
-	SolverTimeS   float64                  `json:"solver_time_s"`
-	SolverErrors  []string                 `json:"solver_errors,omitempty"`
-	Asserts       int                      `json:"assertion_queries"`
-	AssertsHeld   int                      `json:"assertions_held"`
-	AssertLabels  map[string]int           `json:"assert_labels"`
-	Covers        map[string]int           `json:"covers"`
-	Violations    []violation              `json:"violations"`
-	Inconclusive  []string                 `json:"inconclusive,omitempty"`
-	Incomplete    string                   `json:"incomplete,omitempty"`
-	FuncsRepo     []string                 `json:"functions_encoded"`
-	FuncsStd      []string                 `json:"stdlib_interpreted"`
-	Models        []string                 `json:"models"`
-	Assumptions   []string                 `json:"assumptions"`
-	InitFailed    map[string]string        `json:"init_failed,omitempty"`
-	Samples       []map[string]interface{} `json:"samples"`
-	WallS         float64                  `json:"wall_s"`
-	LoadS         float64                  `json:"load_s"`
-	Solver        string                   `json:"solver"`
-	Bounds        map[string]interface{}   `json:"bounds,omitempty"`
+	Harness       string                 `json:"harness"`
+	Package       string                 `json:"package"`
+	Status        string                 `json:"status"` // ok, violation, inconclusive, incomplete
+	Paths         int                    `json:"paths"`
+	PathsEnded    map[string]int         `json:"paths_ended"`
+	Steps         int64                  `json:"ssa_instructions_interpreted"`
+	Decisions     int64                  `json:"decisions"`
+	SolverQueries int                    `json:"solver_queries"`
+	SolverSat     int                    `json:"solver_sat"`
+	SolverUnsat   int                    `json:"solver_unsat"`
+	SolverUnknown int                    `json:"solver_unknown"`
+	SolverTimeS   float64                `json:"solver_time_s"`
+	SolverErrors  []string               `json:"solver_errors,omitempty"`
+	Asserts       int                    `json:"assertion_queries"`
+	AssertsHeld   int                    `json:"assertions_held"`
+	AssertLabels  map[string]int         `json:"assert_labels"`
+	Covers        map[string]int         `json:"covers"`
+	Violations    []violation            `json:"violations"`
+	Inconclusive  []string               `json:"inconclusive,omitempty"`
+	Incomplete    string                 `json:"incomplete,omitempty"`
+	FuncsRepo     []string               `json:"functions_encoded"`
+	FuncsStd      []string               `json:"stdlib_interpreted"`
+	Models        []string               `json:"models"`
+	Assumptions   []string               `json:"assumptions"`
+	InitFailed    map[string]string      `json:"init_failed,omitempty"`
+	Samples       []sampleRec            `json:"samples"`
+	WallS         float64                `json:"wall_s"`
+	LoadS         float64                `json:"load_s"`
+	Solver        string                 `json:"solver"`
+	Bounds        map[string]interface{} `json:"bounds,omitempty"`
 }
 
 type loaded struct {
@@ -182,6 +182,12 @@ func newInterp(l *loaded, ex *Explorer) *Interp {
 	}
 	ex.it = it
 	return it
+}
+
+type sampleRec struct {
+	PathDecisions []int        `json:"path_decisions"`
+	Vector        []replayItem `json:"one_model_of_path_condition"`
+	Observed      []string     `json:"observed"`
 }
 
 type runOpts struct {
@@ -524,7 +530,7 @@ func (it *Interp) samplePath() {
 	for _, d := range ex.trail[:ex.pos] {
 		tr = append(tr, d.chosen)
 	}
-	ex.Samples = append(ex.Samples, map[string]interface{}{"path_decisions": tr, "one_model_of_path_condition": vec, "observed": obs})
+	ex.Samples = append(ex.Samples, sampleRec{PathDecisions: tr, Vector: vec, Observed: obs})
 }
 
 // observedInModel renders the verifObserve values of the current path under the
